@@ -197,3 +197,11 @@ func VerifDirCache(n *AbsfsNFS) *DirCache   { return n.dirCache }
 func VerifPortmapCall(pm *Portmapper, data []byte, addr net.Addr) ([]byte, error) {
 	return pm.handleCall(data, addr)
 }
+
+// ---- start paths (C28) ----
+func VerifExportPort(n *AbsfsNFS) int {
+	if n.exportServer == nil {
+		return 0
+	}
+	return n.exportServer.GetPort()
+}
